@@ -122,6 +122,20 @@ func (c *Calcium) doCreateWorkloads(ctx context.Context, opts *types.DeployOptio
 						return err
 					}
 
+					// the transaction's rollback is skipped when this step fails, so what
+					// has been allocated before the failure must be given back here
+					allocated := []string{}
+					defer func() {
+						if err == nil {
+							return
+						}
+						for _, nodename := range allocated {
+							if e := c.rmgr.RollbackAlloc(ctx, nodename, workloadResourcesMap[nodename]); e != nil {
+								logger.Errorf(ctx, e, "failed to rollback allocated resources on %s", nodename)
+							}
+						}
+					}()
+
 					// commit changes
 					processingCommits = make(map[string]wal.Commit)
 					for nodename, deploy := range deployMap {
@@ -129,6 +143,7 @@ func (c *Calcium) doCreateWorkloads(ctx context.Context, opts *types.DeployOptio
 						if workloadResourcesMap[nodename], engineParamsMap[nodename], err = c.rmgr.Alloc(ctx, nodename, deploy, opts.Resources); err != nil {
 							return err
 						}
+						allocated = append(allocated, nodename)
 						processing := opts.GetProcessing(nodename)
 						if processingCommits[nodename], err = c.wal.Log(eventProcessingCreated, processing); err != nil {
 							return err
